@@ -32,6 +32,13 @@ def check(tier, seed):
                 sigs.append((s, 'forged: ' + tag, fs))
         for tag, sg in fam.hint_section_mutations(rng, p, honest):
             cases.append({'line': f"sig_decode {s} {sg.hex()}", 'tag': 'malformed hint section: ' + tag.split(',')[0].split('(')[0].strip(), 'want': 'err', 'model': True})
+        # hint sections built from scratch behind the honest c~ and z: the reference decoder decides
+        off = len(honest) - (p['omega'] + p['k'])
+        for tag, y in fam.adversarial_hint_sections(p):
+            if R.hint_bit_unpack(p, y) is None:
+                cases.append({'line': f"sig_decode {s} {(bytes(honest[:off]) + y).hex()}", 'tag': 'crafted hint section: ' + tag.split('; ')[1], 'want': 'err', 'model': 'last 0' in tag})
+            else:
+                sigs.append((s, 'crafted hint section accepted by FIPS 204: ' + tag.split('; ')[1], bytes(honest[:off]) + y))
         dense = [x for x in sigs if x[0] == s and 'hint weight' in x[1]]
         for _, tg, sg in dense[:3]:
             for tag, sg2 in fam.hint_section_mutations(rng, p, sg):
